@@ -133,12 +133,62 @@ func (c *Ctx) lattice(cfg SPCfg, now int64, lex int) {
 	}
 }
 
+// shapeLattice: every instant at every boundary position, one at a time, on messages whose *shape* differs in ways that must not
+// matter for the time checks (no Response Issuer, no Destination, signature on the Response instead of the assertion, encrypted
+// assertion, POST entry point)
+func (c *Ctx) shapeLattice(cfg SPCfg, now int64) {
+	shapes := []string{"no-response-issuer", "no-destination", "response-signed", "encrypted", "no-issuer+no-destination", "post-entry"}
+	for _, shape := range shapes {
+		for field := 0; field < 5; field++ {
+			for pos := 0; pos < 5; pos++ {
+				r := baseResp(cfg, now)
+				a := &r.Entries[0]
+				entry := "xml"
+				switch shape {
+				case "no-response-issuer":
+					r.Issuer = nil
+				case "no-destination":
+					r.Dest = ""
+				case "response-signed":
+					r.Sig, a.Sig = "idp", "none"
+				case "encrypted":
+					a.Wrap = "e"
+				case "no-issuer+no-destination":
+					r.Issuer, r.Dest = nil, ""
+				case "post-entry":
+					entry = "post"
+				}
+				switch field {
+				case 0:
+					r.II = place(now-cfg.Delay, 1, pos)
+				case 1:
+					a.II = place(now-cfg.Delay, 1, pos)
+				case 2:
+					a.Cond.NB = place(now+cfg.Skew, -1, pos)
+				case 3:
+					a.Cond.NOA = place(now-cfg.Skew, 1, pos)
+				default:
+					(*a.Subject)[0].Data.NOA = place(now-cfg.Skew, 1, pos)
+				}
+				c.count("shape-lattice", shape)
+				c.runSP(spCase{cfg: cfg, now: now, ids: []string{"id-req1"}, url: cfg.Acs, r: r, lex: field + pos, entry: entry})
+			}
+		}
+	}
+}
+
 var tolConfigs = [][2]int64{{90000, 180000}, {0, 0}, {1, 1}, {86400000 * 365, 86400000 * 365}, {5000, 600000}, {600000, 5000}, {-5000, -7000}, {0, 180000}, {90000, 0}}
 
 func (c *Ctx) genC02() {
 	now := ms(baseTime)
 	cfg := baseCfg()
 	c.lattice(cfg, now, 0)
+	c.shapeLattice(cfg, now)
+	{
+		cfg2 := baseCfg()
+		cfg2.Delay, cfg2.Skew = 600000, 5000
+		c.shapeLattice(cfg2, now+4242)
+	}
 	if !c.quick() {
 		for i, tc := range tolConfigs[1:] {
 			cfg := baseCfg()
@@ -272,6 +322,19 @@ func (c *Ctx) genC03() {
 		r.Dest = "https://sp.example.com/saml/acs?session=1"
 		c.count("c03-single", "destination:current-url")
 	})
+	// the received-at URL as a server sees it (request URI only): a Destination on another host with the same path is still foreign
+	for _, dst := range []string{"https://evil.example.org/saml/acs", "https://sp.example.com.evil.org/saml/acs", "/saml/acs", "https://sp.example.com/saml/acs", "https://evil.example.org/"} {
+		for _, rel := range []string{"/saml/acs", "", "/", "/saml/acs?session=1"} {
+			for _, signed := range []string{"none", "idp"} {
+				cfg := baseCfg()
+				r := baseResp(cfg, now)
+				r.Sig = signed
+				r.Dest = dst
+				c.count("c03-single", "destination:relative-received-at")
+				run(cfg, r, rel)
+			}
+		}
+	}
 	// several audiences
 	for n := 0; n <= 3; n++ {
 		for hit := -1; hit < n; hit++ {
